@@ -217,7 +217,8 @@ def Drv.setApi (d : Drv) (c : Nat) (a : ApiClient) : Drv :=
   { d with api := fun c' => if c' = c then a else d.api c' }
 
 def Drv.pushResult (d : Drv) (c idx : Nat) (r : String) : Drv :=
-  { d with results := d.results.push s!"(r {c} {idx} {r})" }
+  if r == "unresolved" then d   -- never issued: no storage operation, no schedule entry
+  else { d with results := d.results.push s!"(r {c} {idx} {r})" }
 
 /-- One schedule entry for client c: at most one storage operation.  Non-storage transitions
     before it are run; after it the current API operation is settled (a finished operation is
